@@ -341,6 +341,68 @@ def rule_f(ctx, ix):
                        where=where(f, r))
     if n < 2:     # one interval per axis, however many return statements the cases are spread over
         raise AnalysisError('C08.f: only %d pre-selection intervals recognised' % n)
+    # at an angle that is not a multiple of a quarter turn both semi-axes contribute to the extent along each coordinate axis: a
+    # half-extent chosen on that (general) branch has to be computed from both radii (their maximum, the diagonal, ...)
+    from .. import cond as _c
+    c = ix.cls('glue.core.roi.EllipticalROI')
+    f = c.resolve_func('bounds')
+    if f is None:
+        raise AnalysisError('EllipticalROI.bounds vanished')
+    s_ = f.self_name
+
+    def general(pc):
+        """the branch taken when every angle test failed"""
+        th = [a for a in _c.atoms(pc) if 'theta' in a]
+        if not th:
+            return False
+        try:
+            return all(_c.implies(pc, _c.Not(_c.T(a))) for a in th)
+        except ValueError:
+            return False
+
+    def radii(e, env, depth=0):
+        out = set()
+        for x in ast.walk(e):
+            if isinstance(x, ast.Attribute) and x.attr in ('radius_x', 'radius_y'):
+                out.add(x.attr)
+            if isinstance(x, ast.Name) and depth < 4 and isinstance(env.get(x.id), list) and len(env[x.id]) == 1 and env[x.id][0] is not None:
+                out |= radii(env[x.id][0], env, depth + 1)
+        return out
+    env = _definitions(f.node)
+    ngen = 0
+    # (a) intervals returned on the general branch, (b) half-extent locals bound on the general branch
+    for r in returns_of(f):
+        pc = _c.path_condition(f.node, r, expand=True) or ('const', True)
+        if not general(pc) or not isinstance(r.value, (ast.List, ast.Tuple)):
+            continue
+        for iv in r.value.elts:
+            if isinstance(iv, (ast.List, ast.Tuple)) and len(iv.elts) == 2 and isinstance(iv.elts[0], ast.BinOp):
+                ngen += 1
+                got = radii(iv.elts[0].right, env)
+                ctx.ob(R, '%s general `%s`' % (f.construct, unparse(iv)[:50]), 'at a general angle the half-extent is computed from both radii',
+                       got == {'radius_x', 'radius_y'},
+                       detail='EllipticalROI.bounds uses `%s` as half-extent at an angle that is not a multiple of a quarter turn: it depends on '
+                              '%s only, so for an ellipse whose other radius is the larger one the box is too small and points inside the '
+                              'ellipse are dropped by the pre-selection' % (unparse(iv.elts[0].right), sorted(got) or 'neither radius'), where=where(f, r))
+    for st in walk_no_nested(f.node):
+        if isinstance(st, ast.Assign):
+            pc = _c.path_condition(f.node, st, expand=True) or ('const', True)
+            if not general(pc):
+                continue
+            names = [t.id for t in st.targets if isinstance(t, ast.Name)] + [x.id for t in st.targets if isinstance(t, ast.Tuple) for x in t.elts if isinstance(x, ast.Name)]
+            used = [nm for nm in names if any(isinstance(r.value, (ast.List, ast.Tuple)) and nm in [y.id for y in ast.walk(r.value) if isinstance(y, ast.Name)]
+                                              for r in returns_of(f))]
+            if not used:
+                continue
+            ngen += 1
+            got = radii(st.value, {})
+            ctx.ob(R, '%s general `%s`' % (f.construct, norm(st)[:50]), 'at a general angle the half-extent is computed from both radii',
+                   got == {'radius_x', 'radius_y'},
+                   detail='EllipticalROI.bounds sets the half-extent with `%s` at an angle that is not a multiple of a quarter turn: it depends '
+                          'on %s only, so for an ellipse whose other radius is the larger one the box is too small and points inside the ellipse '
+                          'are dropped by the pre-selection' % (norm(st), sorted(got) or 'neither radius'), where=where(f, st))
+    if ngen < 1:
+        raise AnalysisError('EllipticalROI.bounds: the general-angle branch is no longer recognised')
 
 
 def rule_g(ctx, ix):
